@@ -656,3 +656,23 @@ Proof.
   - cbn [event_type_msg m_fields]. rewrite map_map. reflexivity.
   - intros sm. unfold summary_topic_name, camel_name. destruct (s_name sm); reflexivity.
 Qed.
+
+(* componentName / innerRef literals, for EVERY declaration: the name a function defines and the generated schemas
+   its properties refer to are componentName applied to an explicit literal list, and that list is (as a set) the
+   list of literals the regenerated table records for the function *)
+Definition msg_sites (m : omsg) : list bytes := m_name m :: flat_map (fun f => local_ref (f_type f)) (m_fields m).
+Definition refs_of (cs : list component) : list bytes :=
+  flat_map (fun c => match c with CMsg _ m => flat_map (fun f => local_ref (f_type f)) (m_fields m) | _ => [] end) cs.
+Definition lits_ok (f : string) (l : list string) : bool := same_names (map bs l) (suffix_lits f).
+Theorem suffix_sites_universal : forall e fl,
+  msg_sites (state_msg e fl) = map (fun s => component_name e (bs s)) ["State"; "Keys"; "Data"; "Status"]%string
+  /\ msg_sites (event_msg e) = map (fun s => component_name e (bs s)) ["Event"; "Keys"; "EventType"]%string
+  /\ m_name (keys_msg e) = component_name e (bs "Keys") /\ m_name (data_msg e) = component_name e (bs "Data")
+  /\ m_name (event_type_msg e) = component_name e (bs "EventType")
+  /\ refs_of (publish_components e) = map (fun s => component_name e (bs s)) ["Keys"; "EventType"; "Data"; "Status"]%string
+  /\ lits_ok "acceptState" ["State"; "Keys"; "Data"; "Status"] = true
+  /\ lits_ok "acceptEvent" ["Event"; "Keys"; "EventType"] = true
+  /\ lits_ok "acceptKeys" ["Keys"] = true /\ lits_ok "acceptData" ["Data"] = true
+  /\ lits_ok "acceptEventOneof" ["EventType"] = true
+  /\ lits_ok "acceptPublishTopic" ["Keys"; "EventType"; "Data"; "Status"] = true.
+Proof. intros e fl. repeat split; try reflexivity; vm_compute; reflexivity. Qed.
